@@ -172,6 +172,24 @@ func evalC18(c c18Case, o *Obs) error {
 			return fmt.Errorf("%s: Sort reordered the original's outputs", desc)
 		}
 	}
+	// the result is a copy: a distinct object whose elements are not the original's
+	if s == tx {
+		return fmt.Errorf("%s: Sort returned the caller's own transaction object, not a copy (sorted before: %v)", desc, wantSorted)
+	}
+	for _, a := range s.TxIn {
+		for _, b := range inPtr {
+			if a == b {
+				return fmt.Errorf("%s: the sorted copy shares an input object with the original", desc)
+			}
+		}
+	}
+	for _, a := range s.TxOut {
+		for _, b := range outPtr {
+			if a == b {
+				return fmt.Errorf("%s: the sorted copy shares an output object with the original", desc)
+			}
+		}
+	}
 	// permutation with identical other fields
 	if s.Version != tx.Version || s.LockTime != tx.LockTime || len(s.TxIn) != len(tx.TxIn) || len(s.TxOut) != len(tx.TxOut) {
 		return fmt.Errorf("%s: sorted copy differs in version/locktime/counts", desc)
@@ -199,8 +217,21 @@ func evalC18(c c18Case, o *Obs) error {
 	if s2 := txsort.Sort(s); keySeq(s2) != keySeq(s) {
 		return fmt.Errorf("%s: Sort is not idempotent", desc)
 	}
+	// editing the copy must not reach the original
+	if len(s.TxIn) > 0 {
+		s.TxIn[0].Sequence ^= 0x55
+		s.TxIn[0].PreviousOutPoint.Index ^= 0x40
+	}
+	if len(s.TxOut) > 0 {
+		s.TxOut[0].Value ^= 0x33
+	}
+	s.LockTime++
+	if again, _ := serializeTx(tx); !bytes.Equal(before, again) {
+		return fmt.Errorf("%s: modifying the sorted copy changed the original transaction", desc)
+	}
 	cp := c.build()
 	txsort.InPlaceSort(cp)
+	s = txsort.Sort(tx)
 	if keySeq(cp) != keySeq(s) {
 		return fmt.Errorf("%s: InPlaceSort order %s differs from Sort order %s", desc, keySeq(cp), keySeq(s))
 	}
